@@ -101,8 +101,19 @@ pub fn concretise(r: &Value, i: usize, salt: &str, pad: usize) -> CReq {
         if let Some(p) = params {
             v.as_object_mut().unwrap().insert("parameters".into(), p);
         }
-        flags(&mut v, r, i + salt.bytes().map(|b| b as usize).sum::<usize>());
-        (method, serde_json::to_vec(&v).unwrap())
+        let variety = i + salt.bytes().map(|b| b as usize).sum::<usize>();
+        flags(&mut v, r, variety);
+        // JSON allows blanks and line breaks between tokens and around the text: some requests are written that way
+        // (a chunk boundary may then fall behind white space that is insignificant - or, inside a string, significant)
+        let bytes = if variety % 3 == 1 {
+            let mut b = b"  ".to_vec();
+            b.extend_from_slice(&serde_json::to_vec_pretty(&v).unwrap());
+            b.extend_from_slice(b" \n");
+            b
+        } else {
+            serde_json::to_vec(&v).unwrap()
+        };
+        (method, bytes)
     };
     let (method, bytes): (String, Vec<u8>) = match kind.as_str() {
         "GetInfo" => mk("org.varlink.service.GetInfo".into(), None),
@@ -132,11 +143,11 @@ pub fn concretise(r: &Value, i: usize, salt: &str, pad: usize) -> CReq {
         "TrailingDot" => mk("org.example.gen.".into(), Some(json!({"ping": tok}))),
         "GenOk" => mk(
             "org.example.gen.Ping".into(),
-            Some(json!({"ping": format!("{}{}", tok, padding)})),
+            Some(json!({"ping": format!(" {} a  b{} ", tok, padding)})),   // blanks inside a string are data
         ),
         "GenExtraMember" => mk(
             "org.example.gen.Ping".into(),
-            Some(json!({"ping": tok, "extra": [1, {"a": null}]})),
+            Some(json!({"ping": format!("{}  ", tok), "extra": [1, {"a": null}, " "]})),
         ),
         "GenBadParams" => mk("org.example.gen.Ping".into(), Some(json!({"ping": 5}))),
         "GenNullParams" => mk("org.example.gen.Ping".into(), Some(Value::Null)),
